@@ -81,7 +81,11 @@ def tie(ctx, prop="ctx"):
         have = {f["signature"] for f in ctx.known}
         ctx.known += [f for f in json.load(open(ep)) if (prop is None or f["property"] == prop) and f["signature"] not in have]
     if ctx.replay:
-        ctx.tie("cacheconc-replay", _filtered(prop, h, "run", ctx.replay), [drv]); return
+        # only conch case files (header carries threads= and strategy=) are ours to replay
+        head = [l for l in open(ctx.replay, errors="replace") if l.startswith("#case ")][:1]
+        if head and "threads=" in head[0] and "strategy=" in head[0] and "shards=" in head[0]:
+            ctx.tie("cacheconc-replay", _filtered(prop, h, "run", ctx.replay), [drv])
+        return
     for w in WITNESSES:
         if os.path.exists(w):
             ctx.tie("cacheconc-known-" + os.path.basename(w)[:-5], _filtered(prop, h, "run", w), [drv])
